@@ -285,11 +285,31 @@ def default(ty):
     raise ValueError(k)
 
 
+def float_of(v) -> float:
+    return float.fromhex(v["fl"])
+
+
+def round_half_even(x: float) -> int:
+    """Nearest integer to the exact value of a finite double, ties to even (what the cast of a float input to an
+    integer field has to produce); exact rational arithmetic, independent of Python's round()."""
+    q = Fraction(x)
+    fl = q.numerator // q.denominator
+    rem = q - fl
+    if rem > Fraction(1, 2) or (rem == Fraction(1, 2) and fl % 2 == 1):
+        return fl + 1
+    return fl
+
+
 def as_int(v):
     if isinstance(v, bool):
         return int(v)
     if isinstance(v, int):
         return v
+    if isinstance(v, dict) and "fl" in v:
+        x = float_of(v)
+        if x != x or x in (float("inf"), float("-inf")):
+            raise Reject("non-finite float for an integer field")
+        return round_half_even(x)
     raise Reject("not a number")
 
 
@@ -307,6 +327,11 @@ def expect(ty, v):
     if k == "bool":
         if isinstance(v, (bool, int)):
             return bool(v)
+        if isinstance(v, dict) and "fl" in v:
+            x = float_of(v)
+            if x != x or x in (float("inf"), float("-inf")):
+                raise Reject("non-finite float for a bool field")
+            return x != 0
         raise Reject("bool")
     if k in ("uint", "byte", "utf8"):
         n = prim_bits(ty)
@@ -471,6 +496,8 @@ def to_py(v):
         return v
     if isinstance(v, list):
         return [to_py(x) for x in v]
+    if "fl" in v:
+        return float_of(v)
     if "bits" in v:
         s = v["src"]
         return f64_of_bits(s[1]) if s[0] == "f" else s[1]
@@ -488,6 +515,10 @@ def model_val(v):
         return v
     if isinstance(v, list):
         return [model_val(x) for x in v]
+    if "fl" in v:
+        # a float given for an integer / bool field: the model receives the integer it denotes (nearest, ties to
+        # even; truthiness for bool), or nothing for a non-finite float (rejected as ValueError)
+        return v["as"]
     if "bits" in v:
         return {"bits": v["bits"]}
     if "x" in v:
@@ -546,8 +577,10 @@ def classify(ex: BaseException) -> typing.Tuple[str, str]:
 
 def impl_dec(T, ty, data: bytes, hdr: bool, with_fix: bool) -> dict:
     P = common.import_pydsdl()
+    # every accepted buffer type is exercised; the choice is a function of the data so that a case replays exactly
+    buf = (bytes, bytearray, memoryview)[(len(data) + sum(data[:2])) % 3](data)
     try:
-        o = P.deserialize(T, data, with_delimiter_header=hdr)
+        o = P.deserialize(T, buf, with_delimiter_header=hdr)
     except Exception as ex:  # noqa
         r, c = classify(ex)
         return {"res": r, "soft_cls": c}
@@ -706,8 +739,27 @@ def gen_float_src(rng: random.Random, w: int):
     return ["f", b]
 
 
+def gen_float_for_int(rng: random.Random, n: int, signed: bool, boolean: bool = False):
+    """A Python float offered to an integer / bool field (rounded to nearest-even by the library, then cast)."""
+    lo, hi = (-(1 << (n - 1)), (1 << (n - 1)) - 1) if signed else (0, (1 << n) - 1)
+    cands = [0.0, -0.0, 0.4, 0.5, 1.5, 2.5, -0.5, -1.5, 3.999, float(hi), float(lo), float(hi) + 1.0, float(lo) - 1.0,
+             float(hi) * 2, 1e19, 1.8446744073709552e19, 9.223372036854775807e18, -9.3e18, 1e20, -1e20, 1e300, -1e300,
+             float(rng.randint(lo, hi)), rng.uniform(lo - 3, hi + 3) if hi < 10**15 else float(rng.randint(lo, hi)) + 0.5,
+             float("inf"), float("-inf"), float("nan")]
+    x = rng.choice(cands)
+    if x != x or x in (float("inf"), float("-inf")):
+        a = None
+    elif boolean:
+        a = x != 0
+    else:
+        a = round_half_even(x)
+    return {"fl": x.hex() if x == x and abs(x) != float("inf") else repr(x), "as": a}
+
+
 def gen_int(rng: random.Random, n: int, signed: bool):
     lo, hi = (-(1 << (n - 1)), (1 << (n - 1)) - 1) if signed else (0, (1 << n) - 1)
+    if rng.random() < 0.12:
+        return gen_float_for_int(rng, n, signed)
     x = rng.random()
     if x < 0.35:
         return rng.randint(lo, hi)
@@ -749,6 +801,8 @@ def gen_value(rng: random.Random, ty, st: dict):
     """Explicit-form input for ty: valid shape; numbers may be out of range; fields may be omitted."""
     k = ty[0]
     if k == "bool":
+        if rng.random() < 0.1:
+            return gen_float_for_int(rng, 1, False, boolean=True)
         return rng.choice([True, False, True, False, 0, 1, 5, -1])
     if k == "uint":
         return gen_int(rng, ty[1], False)
